@@ -59,6 +59,29 @@ PoolFb == <<
     Call(ff, << ys, N("Product", << SM4, ys >>) >>),
     CSE0(N("Sum", << xs, K1 >>))
 >>
+\* round 5: EVERY FIELD of a node is input alphabet.  TLC chooses the node kind that carries
+\* fields, the value of each field (optional ones at their default and away from it: a
+\* wrapper's prefix and its three scopes; required ones: the name of a lookup, the
+\* operator of a comparison, the keyword of a call) and the arrangement: the node alone (an
+\* equal child was mapped in an EARLIER call of the history, FieldPre) or next to a
+\* separately written equal child under another parent.  With the build mode "distinct
+\* objects for equal subtrees" (C05_Gen!bm) the memoizing mappers then meet an equal but
+\* not identical object in the table and take the rebuild branches (C05_Rebuild).
+FScopes == << "pymbolic_eval", "pymbolic_expr", "pymbolic_global" >>
+FPrefixes == << "", "pre" >>
+WrapNodes(c) ==
+    [i \in 1..(Len(FScopes) * Len(FPrefixes)) |->
+        CSE(c, FPrefixes[((i - 1) % Len(FPrefixes)) + 1], FScopes[((i - 1) \div Len(FPrefixes)) + 1])]
+NamedNodes(c) == << Look(c, "p"), Look(c, "q"), Cmp(c, "<", K1), Cmp(c, ">=", K1),
+                    CallKw(ff, << c >>, << KwArg("k1", c) >>),
+                    CallKw(ff, << c >>, << KwArg("k2", c) >>) >>
+Arranged(c, fs) == fs \o [i \in 1..Len(fs) |-> N("Product", << c, fs[i] >>)]
+FC1 == S1                     \* its variable is substituted by the substitution pair
+FC2 == B("Sub", tt, K1)       \* untouched by every identity-shaped pair
+FieldPre == << FC1, FC2 >>
+PoolFields == FieldPre \o Arranged(FC1, WrapNodes(FC1))
+                       \o Arranged(FC2, WrapNodes(FC2) \o NamedNodes(FC2))
+NFieldPre == Len(FieldPre)
 PoolConsts == << K4, K4f, K1, KT, K(FltV(1, 1)), K0, K(BoolV(FALSE)) >>
 
 ArgCore == << NoArgs, Args(<< IntV(1) >>, << >>), Args(<< >>, << [name |-> "k", v |-> IntV(1)] >>) >>
@@ -81,6 +104,7 @@ SubstMap == [x |-> N("Sum", << y, K1 >>), y |-> K4f]
 Modelled == <<
     [m |-> "ident", scope |-> "all"],
     [m |-> "ident", scope |-> "cse"],                 \* renaming identity mapper + the mix-in only
+    [m |-> "pident", scope |-> "all"],                \* round 5: the STOCK identity pair (no renaming)
     [m |-> "coll",  scope |-> "all"],
     [m |-> "count", scope |-> "all"],
     [m |-> "walk",  scope |-> "all"],
@@ -131,7 +155,7 @@ Unmodelled == <<
 >>
 \* which extra arguments a pair accepts: "full" (positional and keyword), "pos", "none"
 ArgCap(mk) == CASE mk.scope = "cse" /\ mk.m \in {"ident", "dep"} -> "pos"   \* the mix-in takes *args only
-                [] mk.m \in {"ident", "coll", "count", "walk", "probe"} -> "full"
+                [] mk.m \in {"ident", "pident", "coll", "count", "walk", "probe"} -> "full"
                 [] mk.m = "dep" -> "pos"
                 [] OTHER -> "none"
 ArgFits(mk, a) == CASE ArgCap(mk) = "full" -> TRUE
